@@ -254,8 +254,10 @@ func runC06(p *core.Prog, r *core.Report) {
 				}
 			}
 		})
-		r.Check(!hasMapRange, "C06.R2", "AncestorsOf/order", "the ancestor list is produced in a deterministic (index) order", "AncestorsOf ranges over a map", p.Pos(fn.Pos()))
+		r.Check(!hasMapRange, "C06.R2", "AncestorsOf/order", "the ancestor list is built without ranging over a map (the same list always gives the same order; that this order also depends on the position of the modules in the list is the separate rule hashModule/ancestor-order-independent)", "AncestorsOf ranges over a map", p.Pos(fn.Pos()))
 	})
+
+	r.Guard("C06.R2", "ancestor-order", "ancestors hashed in a list-independent order", func() { checkAncestorOrderIndependent(p, r) })
 
 	// ------------------------------------------------------------------ R3
 	r.Guard("C06.R3", "import-transforms", "write-sets disjoint from the hash read-set", func() {
